@@ -10,39 +10,62 @@
 (*       position vector (vx, vy) come from the W2 entry, else w1y=DW2[1], *)
 (*       vy = DW2[0] and no explicit vx ("half": half the glyph width)     *)
 (* Machine: AShow - one render_char call: record origin/advance/disp, move *)
-(* the pen.  Reference: closed-form sums.  Invariant: PlacementRef         *)
-(* (VerticalPlacement for mode "V").  ISO 32000-1 9.7.4.3, 9.4.4.          *)
+(* the pen - with the text-state parameters Tc, Tw, Tz (Ts in the          *)
+(* realisation): two copies, intended and as coded.  Reference: closed     *)
+(* forms of 9.4.4.  Invariants: PlacementRef (VerticalPlacement for mode   *)
+(* "V"), DevLocal.  ISO 32000-1 9.7.4.3, 9.4.4.                            *)
 (***************************************************************************)
 EXTENDS Integers, Sequences, FiniteSets, TLC, Json
 
-CONSTANTS Setups,    \* records [mode |-> "H"|"V", tab |-> [cid -> tuple or <<>>], dw |-> default tuple, id |-> name]
-          ShowCids,  \* CIDs that may be shown
-          MaxShow
+CONSTANTS Setups,    \* records [id, mode |-> "H"|"V", tab |-> [cid -> tuple or <<>>], dw |-> default tuple,
+                     \*          tc, tw |-> character / word spacing (thousandths of the font size), sc |-> Tz / 100]
+          ShowCids,  \* CIDs that may be shown (32 among them: the CID a word-spacing rule could mistake for a space)
+          MaxShow,
+          Dev
 
 NoW == <<>>
 Met(su, c) == IF c \in DOMAIN su.tab /\ su.tab[c] # NoW THEN su.tab[c] ELSE su.dw
 Adv(su, c) == Met(su, c)[1]
 Disp(su, c) == IF su.mode = "H" THEN <<0, 0>> ELSE <<Met(su, c)[2], Met(su, c)[3]>>
-RECURSIVE Sum(_, _, _)
-Sum(su, cids, n) == IF n = 0 THEN 0 ELSE Sum(su, cids, n - 1) + Adv(su, cids[n])
 
-VARIABLES su, cids, pen, glyphs
-vars == <<su, cids, pen, glyphs>>
-Init == su \in Setups /\ cids = <<>> /\ pen = 0 /\ glyphs = <<>>
+\* Reference, ISO 32000-1 9.4.4 (one shown string, no TJ adjustments):
+\*   horizontal  tx = (w0 * Tfs + Tc + Tw) * Th        vertical  ty = w1 * Tfs + Tc + Tw      (Th does not enter)
+\* and "word spacing shall be applied to every occurrence of the single-byte character code 32 ... it shall not apply to
+\* occurrences of the byte value 32 in multiple-byte codes": the codes of these fonts are two bytes long, so Tw never
+\* applies - whatever the CID is.  Text rise (Ts) moves no origin and changes no advance.
+RefScale(su) == IF su.mode = "H" THEN su.sc ELSE 1
+RefStep(su, c) == (Adv(su, c) + su.tc) * RefScale(su)
+RECURSIVE RefAt(_, _, _)
+RefAt(su, cids, n) == IF n = 0 THEN 0 ELSE RefAt(su, cids, n - 1) + RefStep(su, cids[n])
+
+\* Machine: PDFTextDevice.render_string + render_string_horizontal / _vertical + LTChar.adv.
+\*   scaling = Tz/100 ; charspace = Tc * scaling ; wordspace = 0 for a multi-byte font ; per glyph: the pen first moves
+\*   by charspace (not before the first glyph), the glyph is placed, the pen moves by adv = w * Tfs * scaling
+\* Deviation "VerticalTzScales": the vertical branch uses the same scaling (intended: none in vertical mode).
+Scale(su, dev) == IF su.mode = "H" \/ "VerticalTzScales" \in dev THEN su.sc ELSE 1
+
+VARIABLES su, cids, pen, glyphs, penc, glyphsc
+vars == <<su, cids, pen, glyphs, penc, glyphsc>>
+Init == su \in Setups /\ cids = <<>> /\ pen = 0 /\ glyphs = <<>> /\ penc = 0 /\ glyphsc = <<>>
+Place(p, first, c, dev) == LET at == IF first THEN p ELSE p + su.tc * Scale(su, dev) IN
+                           [g |-> [at |-> at, adv |-> Adv(su, c) * Scale(su, dev), disp |-> Disp(su, c)],
+                            pen |-> at + Adv(su, c) * Scale(su, dev)]
 AShow == /\ Len(cids) < MaxShow
          /\ \E c \in ShowCids :
               /\ cids' = Append(cids, c)
-              /\ glyphs' = Append(glyphs, [at |-> pen, adv |-> Adv(su, c), disp |-> Disp(su, c)])
-              /\ pen' = pen + Adv(su, c)
+              /\ glyphs' = Append(glyphs, Place(pen, cids = <<>>, c, {}).g)
+              /\ pen' = Place(pen, cids = <<>>, c, {}).pen
+              /\ glyphsc' = Append(glyphsc, Place(penc, cids = <<>>, c, Dev).g)
+              /\ penc' = Place(penc, cids = <<>>, c, Dev).pen
          /\ UNCHANGED su
 Next == AShow
 Spec == Init /\ [][Next]_vars
 
 PlacementRef == /\ Len(glyphs) = Len(cids)
-                /\ \A i \in 1..Len(cids) : /\ glyphs[i].at = Sum(su, cids, i - 1)
-                                           /\ glyphs[i].adv = Adv(su, cids[i])
+                /\ \A i \in 1..Len(cids) : /\ glyphs[i].at = RefAt(su, cids, i - 1)
+                                           /\ glyphs[i].adv = Adv(su, cids[i]) * RefScale(su)
                                            /\ glyphs[i].disp = Disp(su, cids[i])
-                /\ pen = Sum(su, cids, Len(cids))
 VerticalPlacement == su.mode = "V" => PlacementRef
-Emit == Len(cids) > 0 => PrintT("@@" \o ToJson([id |-> su.id, mode |-> su.mode, cids |-> cids, g |-> glyphs]))
+DevLocal == glyphsc # glyphs => su.mode = "V" /\ su.sc # 1 /\ "VerticalTzScales" \in Dev
+Emit == Len(cids) > 0 => PrintT("@@" \o ToJson([id |-> su.id, mode |-> su.mode, cids |-> cids, g |-> glyphs, gc |-> glyphsc]))
 =============================================================================
